@@ -13,6 +13,8 @@ Definition term_of_mode (mode : N) : term :=
 Definition masked (mask : N) (bit : N) (v : list N * list N) : list (list N) :=
   if N.testbit mask bit then [fst v; snd v] else [NOT_ISSUED; []].
 
+Definition enc_sw (e : swerr) : list N :=
+  match e with SWNotConnected => [3] | SWClosed => [4] | SWStopped c => [1; c] | SWQuicProto => [6] end.
 Definition enc_cerr (e : cerr) : list N * list N :=
   match e with
   | CEApplicationClosed c r => ([1; c], r)
@@ -34,7 +36,12 @@ Definition model_601 (a : list (list N)) : list (list N) :=
   let mk (wait open closed raw : list N * list N) :=
       [[1]] ++ masked mask 0 wait ++ masked mask 1 wait ++ masked mask 2 wait ++
       [fst wait; snd wait; fst wait; snd wait; fst wait; snd wait] ++
-      [fst open; snd open; fst closed; snd closed; fst raw; snd raw] in
+      [fst open; snd open; fst closed; snd closed; fst raw; snd raw] ++
+      (* finish(), twice, on a stream that was unfinished when the connection ended: quinn reports the
+         connection lost; while the connection lives the peer acknowledges and finish succeeds *)
+      (let fin := if list_eqb (fst wait) PENDING then [0]
+                  else match finish_result QSConnectionLost with Some e => enc_sw e | None => [0] end in
+       [fin; fin]) in
   if mode =? 4 then
     (* Connection::close: quinn reports LocallyClosed to every call, the peer gets code and reason *)
     let l := enc_cerr (with_driver_error DNotConnected (Some QLocally)) in
@@ -221,13 +228,13 @@ Definition chk_631 (a o : list (list N)) : bool :=
   end.
 
 (* ---- family 641: stream termination signals ---- *)
-Definition enc_sw (e : swerr) : list N :=
-  match e with SWNotConnected => [3] | SWClosed => [4] | SWStopped c => [1; c] | SWQuicProto => [6] end.
 Definition model_641 (a : list (list N)) : list (list N) :=
   let op := argn 0 0 a in let code := argn 0 1 a in let nb := argn 0 2 a in
   match op with
-  | 1 => [[1]; enc_sw (map_stopped (QSSome code)); enc_sw (map_write (QWStopped code));
-          match finish_result (QSSome code) with Some e => enc_sw e | None => [0] end]
+  | 1 => let st := enc_sw (map_stopped (QSSome code)) in
+         let wr := enc_sw (map_write (QWStopped code)) in
+         let fi := match finish_result (QSSome code) with Some e => enc_sw e | None => [0] end in
+         [[1]; st; wr; fi; wr; st; fi]
   | 2 => [[1]; match map_read (QRReset code) with SRReset c => [1; c] | _ => [3] end]
   | 3 => [[1]; [1; varint_w2q code]]
   | 4 => [[1; 1]; [1; varint_w2q code]]
@@ -322,6 +329,11 @@ Definition chk_671 (a o : list (list N)) : bool :=
   let remote := enc_cerr (of_quinn (QApp (varint_q2w code) reason)) in
   let local := enc_cerr (of_quinn QLocally) in
   let dgp := flat_map (fun _ => [1; 1]) dg in
+  if argn 0 5 a =? 1 then
+    (* tight connection credit: either the machine could not be calibrated ([[3]]: no verdict) or the
+       1000 bytes arrive exactly, then end-of-stream *)
+    lists_eqb o [[3]] || lists_eqb o [[1; 1]; [1; 1000; 0]]
+  else
   lists_eqb o ([[1; len sizes]] ++ map (fun sz => [1; sz; 0]) sizes ++ [[7777]]
                ++ map (fun _ => if kind =? 0 then [1; 1; 0] else [1; 1; 0; 1]) sizes
                ++ [[8888]; dgp; dgp; [9999]]
